@@ -294,6 +294,16 @@ def run_reject(case):
                 return [Disc('reject.invalid-name-accepted:%s' % case['arg'], repr(case['value']))]
             return []
         if case['kind'] == 'reserved':
+            # only the reserved path ITSELF is refused: its neighbours (a longer last element, a child, the parent) are
+            # ordinary paths a method call or a signal may name
+            for near in ('/org/freedesktop/DBus/LocalCache', '/org/freedesktop/DBus/Local_1', '/org/freedesktop/DBus/Local/child',
+                         '/org/freedesktop/DBus/Loca', '/org/freedesktop/DBus'):
+                for t in (1, 4):
+                    nm = dict(msg, type=t, fields=dict(msg['fields'], path=near, interface=msg['fields'].get('interface') or 'a.b'))
+                    try:
+                        S.build_txdbus_message(MSG, nm)
+                    except Exception as e:
+                        return [Disc('reject.path-next-to-the-reserved-one-refused', 'type %d path %r: %s' % (t, near, exc_detail(e)))]
             try:
                 S.build_txdbus_message(MSG, msg)
             except MarshallingError:
